@@ -1,4 +1,5 @@
 import TorrentVerif.Proofs.RbEx
+import TorrentVerif.Proofs.ExtractPrune
 /-
   C14 — rebuild only adds verified copies; it never damages sources or existing files.
   Property theorems only; helper lemmas live in `Proofs/`.
@@ -277,5 +278,110 @@ theorem sources_untouched_v2 (rootOf : Bytes → Bytes) (ds : Nat) (fs : FS) (fi
 
 /-- `/s/f` is not inside `/d` -/
 example : ¬ ([[100]] : Path) <+: [[115],[102]] := by decide
+
+/-! ### empty directories in a v2 / hybrid file tree (`Model/ExtractPrune.lean`)
+
+  torrentfile's own creators record a directory without any file below it as `name: {}` (at any
+  depth: `name: {deep: {}}`).  `Spec.pruneEntries` is the tree with those nodes removed,
+  `Spec.leavesList` the files of a tree each with its own path. -/
+
+/-- `_parse_tree` skips empty directories.  For every file tree and every `partials` it is started
+    with, the records are exactly those of the tree with all directory nodes without a file
+    below them removed — same records, same order, same `full` paths:
+    (1) parsing the tree and parsing the pruned tree give the same list;
+    (2) every record is the record of one file of the tree under THAT file's own path
+        (`partials` + the keys from the top down to the file), in dictionary order — no record for
+        a directory, and nothing an earlier entry leaves behind enters a later path;
+    (3) the pruned tree has no directory without a file left, it has the same files under the
+        same paths, and a tree that has no such directory is not changed by pruning;
+    (4) locally: an entry without a file below it can be deleted where it stands, before,
+        between or after files, without changing the result.
+    (The seeded regression — a shared `partials` list that is not popped after an empty
+    directory — violates (1), (2) and (4).) -/
+theorem extract_skips_empty_directories (partials : List Bytes) (es : List (Bytes × MetaTree)) :
+    parseTree partials es = parseTree partials (pruneEntries es) ∧
+    parseTree partials es = (leavesList partials es).map recOfLeaf ∧
+    (dirsFull (pruneEntries es) = true ∧
+      leavesList partials (pruneEntries es) = leavesList partials es ∧
+      (dirsFull es = true → pruneEntries es = es)) ∧
+    (∀ a b k t, es = a ++ (k, t) :: b → hasFile t = false →
+      parseTree partials es = parseTree partials (a ++ b)) :=
+  ⟨(parseTree_prune es partials).symm, parseTree_leaves es partials,
+    ⟨dirsFull_prune es, leavesList_prune es partials, pruneEntries_of_full es⟩,
+    fun a b k t he h => he ▸ parseTree_drop_noFile partials a b k t h⟩
+
+/-- the tree `{a: {}, b: file, c: {d: {}}, e: {f: file, g: {}}, z: {}}` below `T`: two records,
+    `T/b` and `T/e/f`; pruning leaves `{b: file, e: {f: file}}` -/
+example :
+    parseTree [[84]] Spec.Ex.holedTree
+      = [⟨[84, 47, 98], [98], 3, some [1], false⟩, ⟨[84, 47, 101, 47, 102], [102], 5, some [2], false⟩] ∧
+    pruneEntries Spec.Ex.holedTree
+      = [([98], .file 3 (some [1])), ([101], .dir [([102], .file 5 (some [2]))])] ∧
+    leavesList [[84]] Spec.Ex.holedTree = [([[84], [98]], 3, some [1]), ([[84], [101], [102]], 5, some [2])] ∧
+    dirsFull Spec.Ex.holedTree = false := ⟨by decide, rfl, by decide, by decide⟩
+
+/-- The v2 branch of `Metadata.extract` (`Impl.extractV2`): the records of the tree without its
+    empty directories, parsed below `v2Partials` — `[]` when the tree AS RECORDED is `{name: file}`
+    (single-file torrent), else `[name]`.  Hence, whenever removing the empty directories does not
+    turn the tree into `{name: file}` (`hsingle`), extracting the tree and extracting the pruned
+    tree give the same records.  `hsingle` is needed: `single_file_rule_sees_empty_directories`. -/
+theorem extract_skips_empty_directories_v2 (name : Bytes) (es : List (Bytes × MetaTree)) :
+    extractV2 name es = parseTree (v2Partials false name es) (pruneEntries es) ∧
+    ((isSingleFileTree name (pruneEntries es) = true → isSingleFileTree name es = true) →
+      extractV2 name es = extractV2 name (pruneEntries es)) := by
+  refine ⟨extractV2_prune name es, fun hsingle => ?_⟩
+  rw [extractV2_prune name es, extractV2_prune name (pruneEntries es), pruneEntries_idem]
+  have : isSingleFileTree name (pruneEntries es) = isSingleFileTree name es := by
+    cases h1 : isSingleFileTree name es with
+    | true => rw [prune_of_single name es h1]; exact h1
+    | false =>
+      cases h2 : isSingleFileTree name (pruneEntries es) with
+      | true => rw [hsingle h2] at h1; cases h1
+      | false => rfl
+  simp only [v2Partials, this]
+
+/-- the example tree under the name `T`: as its pruned tree, `T/b` and `T/e/f` -/
+example :
+    extractV2 [84] Spec.Ex.holedTree = extractV2 [84] (pruneEntries Spec.Ex.holedTree) ∧
+    (extractV2 [84] Spec.Ex.holedTree).map (·.full) = [[84, 47, 98], [84, 47, 101, 47, 102]] :=
+  ⟨(extract_skips_empty_directories_v2 [84] Spec.Ex.holedTree).2 (by decide), by decide⟩
+
+/-- WITNESS for `hsingle` (the real `Metadata` agrees): the directory `D` holding a file `D` and an
+    empty directory `x`.  The recorded tree `{D: file, x: {}}` has two keys, so it is not taken
+    for a single-file torrent and the file is recorded as `D/D` — correctly.  Without the empty
+    directory the tree is `{D: file}`, which the single-file rule reads as the file `D`.  The
+    empty directory produces no record, but it is what tells the two torrents apart. -/
+theorem single_file_rule_sees_empty_directories :
+    ∃ (name : Bytes) (es : List (Bytes × MetaTree)),
+      (extractV2 name es).map (·.full) = [[68, 47, 68]] ∧
+      (extractV2 name (pruneEntries es)).map (·.full) = [[68]] ∧
+      extractV2 name es = parseTree [name] (pruneEntries es) :=
+  ⟨[68], Spec.Ex.namesakeTree, by decide, by decide, by decide⟩
+
+/-- The whole `Metadata.extract` on a decoded `meta version` 2 metafile, pure v2 or hybrid: when it
+    succeeds, the file tree is a dictionary that reads as `es`, and `files` are the records of
+    `es` WITHOUT its empty directories, parsed below the torrent's name — or below nothing when
+    there is no `files` key and the tree as recorded is `{name: file}`; `filenames` are the file
+    names of these records.  A hybrid metafile (`files` key) is always parsed below the name. -/
+theorem extractMeta_skips_empty_directories (mf : BVal) (m : RebuildMeta)
+    (h : extractMeta mf = .ok m) (hv : m.metaVersion = some 2) :
+    ∃ info tree es, mf.get? K.info = some (.dict info) ∧
+      dictGet info K.fileTree = some (.dict tree) ∧ toMetaEntries tree = .ok es ∧
+      m.files = parseTree (v2Partials (dictHas info K.files) m.name es) (pruneEntries es) ∧
+      (dictHas info K.files = true → m.files = parseTree [m.name] (pruneEntries es)) ∧
+      m.filenames = nameSet (m.files.map (·.filename)) := by
+  obtain ⟨info, tree, es, h1, h2, h3, h4, h5⟩ := Spec.extractMeta_v2_files mf m h hv
+  refine ⟨info, tree, es, h1, h2, h3, h4, fun hf => ?_, h5⟩
+  rw [h4]; simp [v2Partials, hf]
+
+/-- the example tree in a v2 and in a hybrid metafile `T`: the bencoded tree reads as
+    `holedTree`, and both yield `T/b`, `T/e/f` and the file names `b`, `f` -/
+example :
+    toMetaEntries (match Spec.Ex.holedVal with | .dict d => d | _ => []) = .ok Spec.Ex.holedTree ∧
+    (∃ m, extractMeta (Spec.Ex.holedMeta false) = .ok m ∧ m.metaVersion = some 2 ∧
+      m.files.map (·.full) = [[84, 47, 98], [84, 47, 101, 47, 102]] ∧ m.filenames = [[98], [102]]) ∧
+    (∃ m, extractMeta (Spec.Ex.holedMeta true) = .ok m ∧ m.metaVersion = some 2 ∧
+      m.files.map (·.full) = [[84, 47, 98], [84, 47, 101, 47, 102]] ∧ m.filenames = [[98], [102]]) :=
+  ⟨rfl, ⟨_, rfl, by decide, by decide, by decide⟩, ⟨_, rfl, by decide, by decide, by decide⟩⟩
 
 end TorrentVerif.Props.C14
